@@ -408,11 +408,12 @@ impl<T: Send> Sender<T> {
   /// This is a zero-cost conversion. The `Drop` implementation of the original
   /// `Sender` is not called.
   pub fn to_async(self) -> AsyncSender<T> {
+    let closed = self.closed.load(Ordering::Relaxed);
     let shared = unsafe { std::ptr::read(&self.shared) };
     mem::forget(self);
     AsyncSender {
       shared,
-      closed: AtomicBool::new(false),
+      closed: AtomicBool::new(closed),
     }
   }
 
@@ -635,11 +636,12 @@ impl<T: Send> Receiver<T> {
   /// This is a zero-cost conversion. The `Drop` implementation of the original
   /// `Receiver` is not called.
   pub fn to_async(self) -> AsyncReceiver<T> {
+    let closed = self.closed.load(Ordering::Relaxed);
     let shared = unsafe { std::ptr::read(&self.shared) };
     mem::forget(self);
     AsyncReceiver {
       shared,
-      closed: AtomicBool::new(false),
+      closed: AtomicBool::new(closed),
       state: AtomicU8::new(STATE_WAITING),
       is_registered: false,
     }
@@ -829,11 +831,12 @@ impl<T: Send> AsyncSender<T> {
   /// This is a zero-cost conversion. The `Drop` implementation of the original
   /// `AsyncSender` is not called.
   pub fn to_sync(self) -> Sender<T> {
+    let closed = self.closed.load(Ordering::Relaxed);
     let shared = unsafe { std::ptr::read(&self.shared) };
     mem::forget(self);
     Sender {
       shared,
-      closed: AtomicBool::new(false),
+      closed: AtomicBool::new(closed),
     }
   }
 
@@ -1050,11 +1053,12 @@ impl<T: Send> AsyncReceiver<T> {
           .retain(|w| w.state != state_ptr);
       }
     }
+    let closed = self.closed.load(Ordering::Relaxed);
     let shared = unsafe { std::ptr::read(&self.shared) };
     mem::forget(self); // AtomicU8 has no destructor; safe to forget.
     Receiver {
       shared,
-      closed: AtomicBool::new(false),
+      closed: AtomicBool::new(closed),
     }
   }
 
